@@ -20,6 +20,7 @@ import (
 	"math/rand"
 	"runtime"
 	"sort"
+	"strings"
 	"time"
 
 	"github.com/olric-data/olric/internal/cluster/partitions"
@@ -103,7 +104,10 @@ func (s *Service) evictKeys() {
 	part := s.primary.PartitionByID(partID)
 	part.Map().Range(func(name, tmp interface{}) bool {
 		f := tmp.(*fragment)
-		s.scanFragmentForEviction(partID, name.(string), f)
+		// Fragments are registered as "dmap.<name>". The scan needs the DMap's own
+		// name: it hashes keys with it to reach the backup copies and the previous
+		// owners, and looks up the DMap's eviction configuration by it.
+		s.scanFragmentForEviction(partID, strings.TrimPrefix(name.(string), "dmap."), f)
 		// this breaks the loop, we only scan one dmap instance per call
 		return false
 	})
